@@ -1190,7 +1190,13 @@ class Porter(object):
                                                         steward.requestant.version,
                                                         steward.requestant.headers,
                                                         steward.requestant.body))
-                    steward.respond()
+                    try:
+                        steward.respond()
+                    except Exception as ex:  # responder failed so give up on connection
+                        console.terse("Error responding to request from {0}. {1}\n".format(
+                            ca, ex))
+                        self.closeConnection(ca)
+                        continue
 
             if steward.waited:
                 steward.pour()
